@@ -101,16 +101,20 @@ Proof.
 Qed.
 
 (** the ledger is append-only under the only operations that touch it *)
-Lemma submit_loop_grows fs : forall (t : traveller) pc now p debit t' pc',
-  submit_loop t pc fs now p debit = inl (t', pc') -> exists new, t_ledger t' = new ++ t_ledger t.
+Lemma submit_loop_from_grows fs : forall first (t : traveller) pc now p debit t' pc',
+  submit_loop_from first t pc fs now p debit = inl (t', pc') -> exists new, t_ledger t' = new ++ t_ledger t.
 Proof.
-  induction fs as [|f r IH]; intros t pc now p debit t' pc'; cbn [submit_loop].
+  induction fs as [|f r IH]; intros first t pc now p debit t' pc'; cbn [submit_loop_from].
   - intros E; injection E as <- _. exists []. reflexivity.
-  - destruct (submit_flight t f now (pTaxi p) debit) as [[[t1 bac] pd]|] eqn:Es; [|discriminate].
-    destruct (submit_flight_ledger _ _ _ _ _ _ _ _ Es) as [E1 _]. intros E.
-    destruct (IH _ _ _ _ _ _ _ E) as (new & En). rewrite En.
+  - destruct (checkin_one first t f now (pTaxi p) debit) as [[[t1 bac] pd]|] eqn:Es; [|discriminate].
+    destruct (checkin_one_ledger _ _ _ _ _ _ _ _ _ Es) as [E1 _]. intros E.
+    destruct (IH _ _ _ _ _ _ _ _ E) as (new & En). rewrite En.
     destruct (_ && _); cbn [transact t_ledger]; rewrite E1; eexists; rewrite ?app_comm_cons, app_assoc; reflexivity.
 Qed.
+
+Lemma submit_loop_grows fs (t : traveller) pc now p debit t' pc' :
+  submit_loop t pc fs now p debit = inl (t', pc') -> exists new, t_ledger t' = new ++ t_ledger t.
+Proof. apply submit_loop_from_grows. Qed.
 
 (** ---- "equals the sum" in the usual sense needs the ring laws of addition ---- *)
 Record AddLaws : Prop := {
